@@ -114,6 +114,29 @@ class OneShot:
         return 'OneShot(...)'
 
 
+class SizedOneShot(OneShot):
+    """A one-shot iterator that also knows its length (Sized and Iterable, yet no Collection: no __contains__)."""
+    def __init__(self, xs):
+        xs = list(xs)
+        super().__init__(xs)
+        self._n = len(xs)
+
+    def __len__(self):
+        return self._n
+
+    def __repr__(self):
+        return 'SizedOneShot(...)'
+
+
+class ContainerOneShot(OneShot):
+    """A one-shot iterator with __contains__ but no __len__ (Container and Iterable, yet no Collection)."""
+    def __contains__(self, y):
+        return False
+
+    def __repr__(self):
+        return 'ContainerOneShot(...)'
+
+
 @T.runtime_checkable
 class Proto(T.Protocol):
     def meth(self) -> int: ...
@@ -170,11 +193,23 @@ TV_FREE = T.TypeVar('TV_FREE')
 NT_INT = T.NewType('NT_INT', int)
 NT_LIST = T.NewType('NT_LIST', list)
 
+# PEP 695 type aliases (non-recursive): of a class, of an ignorable hint, of a container, of a union
+type AL_INT = int
+type AL_ANY = T.Any
+type AL_LIST = list[int]
+type AL_UNION = int | str
+type AL_AL = AL_INT
+# recursive aliases: checked to the depth beartype unrolls them (DESIGN §13.2)
+type AL_REC = int | list[AL_REC]
+type AL_RECD = dict[str, AL_RECD] | None
+type AL_RECT = tuple[int, AL_RECT] | None
+
 LEAF_HASHABLE = [int, str, bool, float, type(None), None, T.Literal[1, 'a'], T.Literal[True], T.Literal[0, None],
-                 TV_BOUND, NT_INT, T.Optional[int], int | str]
+                 TV_BOUND, NT_INT, T.Optional[int], int | str, AL_INT, AL_UNION, AL_AL, AL_INT | None]
 LEAF_OTHER = [Proto, Box[int], Box[str], Box, Pair[int], Pair, T.Union[Box[int], Box[str]], T.Union[Box[str], Box[int], None], U0, U1, object, T.Any, type[int], type[U0], type[T.Any], A.Iterator[int], A.Callable[[int], str],
               A.Generator[int, None, None], A.ItemsView[str, int], T.List, TV_FREE, TV_CONSTR, NT_LIST, list, dict,
-              complex, bytes, A.Hashable, A.Sized]
+              complex, bytes, A.Hashable, A.Sized, AL_ANY, AL_LIST, AL_ANY | int, T.Optional[AL_ANY], T.Union[AL_LIST, str],
+              AL_REC, AL_RECD, AL_RECT, list[AL_REC]]
 
 
 class HintGen:
@@ -326,6 +361,8 @@ class ObjGen:
             return self.anything(hashable)
         if hasattr(h, '__supertype__'):
             return self.make(h.__supertype__, depth + 1, hashable)
+        if isinstance(h, T.TypeAliasType):
+            return self.make(h.__value__, depth + 1, hashable)
         if isinstance(h, type) and not isinstance(h, types.GenericAlias):
             return self.of_class(h, hashable)
         origin, args = T.get_origin(h), T.get_args(h)
@@ -404,7 +441,7 @@ class ObjGen:
                 if k == 1:
                     return tuple(xs)
                 if k == 2:
-                    return OneShot(xs)
+                    return r.choice([OneShot, SizedOneShot, ContainerOneShot])(xs)
                 if k == 3:
                     return (y for y in xs)
                 return UserSeq(xs)
